@@ -1557,6 +1557,12 @@ def _build():
         what="[R-default-quotes] with emit_default_doc the prose default of a nested-type parameter wins over the signature default and loses its code quotes; the type is then rewritten from the de-quoted text",
         site="cdd/shared/defaults_utils.py:extract_default / cdd/shared/docstring_parsers.py:_set_name_and_type", example="{'alpha': {'typ': 'Dict[str, List[int]]', 'default': \"```{'k': [1, 2]}```\"}} through function with emit_default_doc=True"))
     out.append(dict(
+        id="C02-int-default-narrows-declared-float", property="C02",
+        pattern=dict(check="format_roundtrip", fmt={"in": ["argparse", "function"]}, entry="param", field="typ", expected={"in": ["float", "Optional[float]"]}, observed={"in": ["int", "Optional[int]"]}, default_kind="int"),
+        what="a parameter declared float whose default is written as an int (momentum: float = 2): the argparse emitter derives type=int from the default, and with emit_default_doc the function parser "
+             "re-infers the type from the prose default; the declared float comes back as int",
+        site="cdd/shared/ast_utils.py:infer_type_and_default / cdd/shared/docstring_parsers.py:_infer_default", example="{'alpha': {'typ': 'float', 'doc': 'the value', 'default': 2}} through argparse -> typ 'int'"))
+    out.append(dict(
         id="C02-google-multiline-description-truncated", property="C02",
         pattern=dict(check="format_roundtrip", style="google", multiline_doc=True, field="doc", observed="truncated"),
         what="[R-google-continuation-unindented] as C01-google-multiline-description-continuation-unindented: in Google style only the first line of a multi-line description comes back",
